@@ -966,10 +966,16 @@ func (r *Raft) leaderLoop() {
 func (r *Raft) verifyLeader(v *verifyFuture) {
 	// Current leader always votes for self
 	v.votes = 1
+	// ... unless it has no vote: a leader that is removing or demoting itself
+	// is not among the voters quorumSize counts
+	selfVoter := hasVote(r.configurations.latest, r.localID)
+	if !selfVoter {
+		v.votes = 0
+	}
 
 	// Set the quorum size, hot-path for single node
 	v.quorumSize = r.quorumSize()
-	if v.quorumSize == 1 {
+	if v.quorumSize == 1 && selfVoter {
 		v.respond(nil)
 		return
 	}
